@@ -18,15 +18,15 @@ claim("C01",
       "The end-to-end obligation is decided as step lemmas over the real code: (1) fan-out of admitted alerts to every live subscriber in order (map order of subscribers explored); (2) insert-or-create never "
       "loses an alert while flush/destroy/maintenance interleave; (3) the real aggregation-group run loop on a virtual clock: first flush <= group_wait after ingestion (at once for old alerts), every later flush "
       "exactly one group_interval after the previous tick, whatever the deliveries do (deliver, fail, hang until the deadline), every flush lists the firing alert; (4) with the receiver's real stage and the real "
-      "notification log, failing deliveries record nothing and every following interval retries until one succeeds, after which the unchanged group is quiet; (5) behind the real fan-out a rejecting or hanging integration never keeps a slow but healthy sibling from being sent and recording the notification.",
-      "The composition (timers fire, goroutines are scheduled, HTTP, config reload, cluster wait) is assumed, not verified; bounds: 2-4 alerts, 2 subscribers, 3-4 flushes, 1 route, preemption bound 1 (quick) / 2. "
+      "notification log, failing deliveries record nothing and every following interval retries until one succeeds, after which the unchanged group is quiet; (5) behind the real fan-out a rejecting or hanging integration never keeps a slow but healthy sibling from being sent and recording the notification; (6) composition: the real provider, Dispatcher.Run and the real pipeline from PipelineBuilder.New (silencer, inhibitor, dedup, retry, real silences and nflog) assembled: an alert put at an arbitrary moment, optionally silenced for a symbolic time, is notified within max(group_wait, group_interval) plus one interval per failed flush, never while silenced, exactly once.",
+      "The composition harness runs one fixed fair schedule (run to block, oldest runnable next) with timer settings from a grid; HTTP, config reload and a cluster wait > 0 are outside; bounds: 2-4 alerts, 2 subscribers, 3-4 flushes, 1 route, preemption bound 1 (quick) / 2. "
       "The must-notify direction of the dedup decision is C04's oracle. " + TRUSTED, "4 C01")
 claim("C02",
       "Bounded symbolic model checking of the real silence code over histories: a silence created through Set, then k slots each with an arbitrary clock advance and an "
       "arbitrary operation (new silence, API edit, expire, replicated merge of an arbitrary version, GC, snapshot reload, alert-GC callback); after every slot "
-      "Silencer.Mutes and the marker ids are compared, for all instants, with a direct evaluation of all stored silences.",
+      "Silencer.Mutes and the marker ids are compared, for all instants, with a direct evaluation of all stored silences. Queries concurrent with an update return the verdict before or after it and are exact again after quiescence.",
       "Bounds: k=2 slots (quick) / 3 (thorough), <=2 silences, matcher/alert pool (equality, regex+negation, OR-ed sets, UTF-8 name), whole-second instants. "
-      "Single-threaded (no concurrent query/update). " + TRUSTED, "4 C02")
+      "Concurrency: 1-2 Mutes calls against one update, preemption bound 1/2. " + TRUSTED, "4 C02")
 claim("C03",
       "Bounded symbolic model checking of the real inhibitor over histories: sources fire, are refreshed, resolve, are garbage collected and fire again in arbitrary order "
       "with symbolic end times; after every step Inhibitor.Mutes and the reported inhibiting alert are compared with the existential rule evaluated on the currently firing sources.",
@@ -38,7 +38,7 @@ claim("C04",
       "Bounds: 3 alert hashes, 1 group/receiver, one repeat window; histories of 3 (quick) / 4 flushes over 2 alerts. Timers and dispatcher restart are outside. " + TRUSTED, "4 C04")
 claim("C05",
       "One flush of a real aggregation group with 2-3 alerts whose ends lie anywhere around the flush instant, a delivery that takes symbolic time, may fail, and during which an alert may fire "
-      "again: what is handed over as resolved/firing, that firing alerts cannot resolve in flight, deletion iff delivered+resolved+unmodified, destruction iff empty, re-fired alert reported firing next time. The receiver's real pipeline (fan-out goroutines, dedup, retry, record, real nflog) with one or two integrations of either send_resolved setting over two flushes: without send_resolved no resolved alert is ever listed, with it the batch is listed exactly and a resolution is reported at the next flush; a group resolved before its first flush sends nothing.",
+      "again: what is handed over as resolved/firing, that firing alerts cannot resolve in flight, deletion iff delivered+resolved+unmodified, destruction iff empty, re-fired alert reported firing next time. The receiver's real pipeline (fan-out goroutines, dedup, retry, record, real nflog) with one or two integrations of either send_resolved setting over two flushes: without send_resolved no resolved alert is ever listed, with it the batch is listed exactly and a resolution is reported at the next flush; a group resolved before its first flush sends nothing. Composition: resolution (explicit end or resolve timeout at a symbolic moment, re-fire before the reporting flush) through provider + Dispatcher.Run + real pipeline on one fixed fair schedule.",
       "Bounds: <=3 alerts, 2 flushes, one re-fire, 2 integrations, preemption bound 1/2. the 'nothing to send' decision under C04. Timers are outside. " + TRUSTED, "4 C05")
 claim("C06",
       "Group labels and group membership for every group_by setting (unset, any subset, empty list, '...') on a root or on a child under a parent with any setting, and every label-set pair; group keys identical across two independently built dispatchers, depending only on the matcher path and the group labels; "
@@ -75,8 +75,9 @@ claim("C12",
       "Bounds: k=3 steps (quick) / 4 (thorough), one original silence plus replacements; two API calls never share one clock reading. HTTP decoding is outside. " + TRUSTED, "4 C12")
 claim("C13",
       "The real POST /alerts handler on batches of 1-3 alerts with/without start/end and valid/invalid labels (defaults, partial acceptance, status code); the real mem provider on two submissions of "
-      "one label set with arbitrary explicit or timed-out ranges at arbitrary instants (earliest start, timeout pushed forward, explicit past end resolves, order of publication); GC removes exactly the resolved alerts.",
-      "Bounds: batch <=3, 2 submissions per label set, 3 alerts for GC. JSON/OpenAPI decoding, receivers and suppression status of GET are outside. " + TRUSTED, "4 C13")
+      "one label set with arbitrary explicit or timed-out ranges at arbitrary instants (earliest start, timeout pushed forward, explicit past end resolves, order of publication); GC removes exactly the resolved alerts; POST then GET /alerts through the real handlers, provider and routing tree: "
+      "exactly the unexpired alerts passing the active/silenced/inhibited switches, once each, in fingerprint order, with stored times, routed receivers and the current suppression status.",
+      "Bounds: batch <=3, 2 submissions per label set, 3 alerts for GC, 2-3 alerts for GET (silencer/inhibitor represented by a status function keyed on labels). JSON/OpenAPI decoding and the filter/receiver query parameters are outside. " + TRUSTED, "4 C13")
 claim("C14",
       "The dispatcher's real ingestion workers (run) consume 2-3 back-to-back versions of one alert; the engine explores every assignment of updates to workers and every "
       "interleaving at channel/sync.Map/store-lock granularity within a preemption bound and asserts that every group ends with the version submitted last.",
